@@ -294,6 +294,35 @@ def run_named(c):
     return r
 
 
+def run_varargs(c):
+    """a @pedantic function whose *args / **kwargs parameter has a missing or bare annotation, called with 0..n extra values"""
+    import typing, builtins
+    ns, journal = {}, []
+    ns['J'] = journal
+    ann = ''
+    if c['bare']:
+        ns['A'] = getattr(typing, c['bare']) if c['bare'][0].isupper() else getattr(builtins, c['bare'])
+        ann = ': A'
+    name = 'args' if c['star'] == '*' else 'kw'
+    lead = 'a: int, ' if c['lead'] else ''
+    src = f'from pedantic import pedantic\n@pedantic\ndef f({lead}{c["star"]}{name}{ann}) -> None:\n    J.append(1)\n'
+    r = {}
+    try:
+        mod = make_module(src, ns)
+    except BaseException as ex:
+        r['out'], r['exc'] = 9, 'decoration failed: ' + repr(ex)[:100]
+        return r
+    vals = [[], None, (), {}, 1][:c['nvals']]
+    if c['star'] == '*':
+        call = (lambda: mod.f(1, *vals)) if c['lead'] else (lambda: mod.f(*vals))
+    else:
+        kw = {f'k{i}': v for i, v in enumerate(vals)}
+        call = (lambda: mod.f(a=1, **kw)) if c['lead'] else (lambda: mod.f(**kw))
+    r['out'], r['exc'] = outcome(call)
+    r['body_ran'] = len(journal)
+    return r
+
+
 def zoo_sizes():
     import zoo
     return len(zoo.annotations()), len(zoo.values())
@@ -305,6 +334,8 @@ def main():
         try:
             if c.get('obs') == 'zoo_sizes':
                 r = {'sizes': zoo_sizes()}
+            elif c.get('obs') == 'varargs':
+                r = run_varargs(c)
             elif c.get('obs') == 'gclass':
                 r = run_gclass(c)
             elif c.get('obs') == 'named':
